@@ -273,6 +273,10 @@ func (f *fetcher) getFromCacheOrFetch(req *http.Request, key cache.CacheKey, cli
 	}
 
 	up := req.Clone(req.Context())
+	// Drop the client's hop-by-hop fields first: a client that names If-None-Match or
+	// If-Modified-Since in its Connection header must not make the proxy's own validators
+	// (added below) disappear from the revalidation request.
+	removeHopByHopHeaders(up.Header)
 
 	// Cache is stale: set conditional headers if available
 	if cached.Metadata.Object.ETag != "" {
